@@ -1258,7 +1258,7 @@ def _oracle_irreg(case, impl, bad, comp=None):
     if _err(r):
         bad("runs", f"rescale raised {r['error']}: {r.get('msg')}", _entry(case, "rescale"), sub)
     elif r["w"] > 1e-12 * big * big and math.isfinite(r["w"]):
-        if abs(r["w_again"] - 1) > 1e-7:
+        if not abs(r["w_again"] - 1) <= 1e-7:
             bad("rescale_reestimate_one", f"irregular data: re-estimated weight {r['w_again']} (weight {r['w']})", _entry(case, "rescale"))
     elif not r["w"] >= 0:
         bad("rescale_weight", f"irregular rescale weight {r['w']}", _entry(case, "rescale"), ["nan-weight"])
